@@ -402,8 +402,8 @@ RULES = {
     "R9": "format!/println!/error!/warn! statements dropped",
     "R10": "std::io::Error -> IoError, std::fs::File -> File (environment types)",
     "R11": "loop headers: `for x in e` -> `for x in it: e` with injected invariant; `proof { .. }` hint blocks inserted before a statement (overlay)",
-    "R19": "iterator/slice adapter expressions of the I/O loops -> environment functions with the adapter's meaning as contract: `iovs.iter().map(|iov| iov.len()).collect()` -> iov_lens_of(iovs); `&iovs[k][off..]` -> slice_from(iovs[k], off); `[&[x], &iovs[(k + 1)..]].concat()` -> concat_tail(x, iovs, k + 1); `x += r` with r: &usize -> `x += *r`",
-    "R20": "raw pointers are modelled by their address: `*mut c_void` -> usize; `unsafe fn` -> fn whose REQUIRES is the safety contract",
+    "R19": "iterator/slice adapter expressions of the I/O loops -> environment functions with the adapter's meaning as contract: `iovs.iter().map(|iov| iov.len()).collect()` -> iov_lens_of(iovs); `&iovs[k][off..]` -> slice_from(iovs[k], off); `[&[x], &iovs[(k + 1)..]].concat()` -> concat_tail(x, iovs, k + 1); `x += r` with r: &usize -> `x += *r`; `vec![0u8; n]` / `vec![0; N]` / `vec![E; N]` -> vec_zeroed / vec_fds_zeroed / events_buffer; `fd_array.iter().take(n).map(|fd| File::from_raw_fd(*fd)).collect()` -> wrap_fds(&fd_array, n); `dst.copy_from_slice(src)` on a FamStructWrapper -> fill_from / copy_to",
+    "R20": "raw pointers are modelled by their address: `*mut c_void` -> usize; `unsafe fn` -> fn whose REQUIRES is the safety contract; `rbuf[k..].as_mut_ptr() as *mut c_void` -> tail_addr(&mut rbuf, k); `unsafe { write(fd, &m as *const T as *const c_void, size_of::<T>()) }` / `unsafe { ioctl_with_ptr(self, REQ(), p) }` -> recording stubs of the kernel interface",
     "R21": "`for (i, x) in v.iter().enumerate() {` -> `for i in 0..v.len() { let x = v[i];` (u64 elements, by value: operators on &u64 forward to u64) or `let x = &v[i];`",
     "R22": "`let mut v = Vec::new();` gets its element type written out (the invariants mention v before inference fixes it)",
     "R23": "Arc::new(x) -> arc_new(x) (shared immutable handle); thread::Builder..spawn(move || h.run()) -> spawn_worker(h) (opaque)",
